@@ -773,18 +773,34 @@ def _regex_call(pattern, flags, method, subject):
     if method == "search":
         raise Unsupported("re.search on a structured string")
     lang = R.language(R.translate(pattern, flags), method)
-    parts = []
-    for p in subject.parts:
-        if isinstance(p, str):
-            parts.append(p)
-        elif p[0] == "dec":
-            parts.append(("dec", p[1].lo, p[1].hi))
+    pieces = list(subject.parts)
+    for _ in range(64):
+        parts = []
+        for p in pieces:
+            if isinstance(p, str):
+                parts.append(p)
+            elif p[0] == "dec":
+                parts.append(("dec", p[1].lo, p[1].hi) if not isinstance(p[1], int) else str(p[1]))
+            else:
+                # a symbolic character: fork on its value class is not modelled -> concretise it
+                parts.append(chr(Engine.current.concretize(p[1])))
+        r = R.decide_membership(parts, lang)
+        if r is not None:
+            break
+        # membership depends on the *number of digits* of some decimal field (e.g. \\d{1,10}): fork on the digit count of the first field that spans several
+        for i, p in enumerate(pieces):
+            if not isinstance(p, str) and p[0] == "dec" and not isinstance(p[1], int) and len(str(max(p[1].lo, 0))) != len(str(p[1].hi)):
+                v = p[1]
+                bound = 10 ** len(str(max(v.lo, 0)))
+                if truth(v < bound):
+                    pieces[i] = ("dec", V.SymInt.mk(v.t, v.lo, bound - 1))
+                else:
+                    pieces[i] = ("dec", V.SymInt.mk(v.t, bound, v.hi))
+                break
         else:
-            # a symbolic character: fork on its value class is not modelled -> concretise it
-            parts.append(chr(Engine.current.concretize(p[1])))
-    r = R.decide_membership(parts, lang)
-    if r is None:
-        raise Unsupported("regex match depends on the values of the symbolic decimal fields")
+            raise Unsupported("regex match depends on the values of the symbolic decimal fields")
+    else:
+        raise Unsupported("regex match could not be decided by digit-count refinement")
     return R.FakeMatch() if r else None
 
 
